@@ -521,6 +521,15 @@ fn c17_grid(tier: Tier) -> Vec<Scenario> {
     }
     v.push(c17_scenario("C17-embedded-size10000-limit5000", PicSource::Data(picture(10000), Some("image/jpeg".into())), PicSource::Empty, 5000, false));
     v.push(c17_scenario("C17-cover-size20000-limit8192", PicSource::Empty, PicSource::Data(picture(20000), None), 8192, false));
+    // raised binary limits (MPD allows up to the output buffer size): chunks far beyond the receive buffer's
+    // first doublings, the whole picture in one chunk and in a few (round 6: a cap on unparsed buffered bytes)
+    for (size, limit) in [(65535usize, 65536usize), (65536, 65536), (65537, 65536), (70000, 131072), (150000, 262144), (250000, 100000), (1 << 20, 1 << 19), (3_000_000, 1 << 21)] {
+        if tier == Tier::Quick && size > 300_000 {
+            continue;
+        }
+        v.push(c17_scenario(&format!("C17-embedded-size{size}-limit{limit}"), PicSource::Data(picture(size), Some("image/jpeg".into())), PicSource::Empty, limit, false));
+        v.push(c17_scenario(&format!("C17-cover-size{size}-limit{limit}"), PicSource::Ack(5), PicSource::Data(picture(size), None), limit, false));
+    }
     for (size, limit, pat) in [(10usize, 4usize, vec![4usize, 1, 2]), (7, 3, vec![1]), (20, 8, vec![8, 8, 3, 1]), (13, 5, vec![5, 4, 3, 2, 1])] {
         let mut s = c17_scenario(&format!("C17-embedded-size{size}-limit{limit}-short-pieces"), PicSource::Data(picture(size), Some("image/png".into())), PicSource::Empty, limit, false);
         s.server.chunk_pattern = pat.clone();
